@@ -141,7 +141,8 @@ def run(ctx):
         if textgen.outlines(i[ci])[li] != textgen.outlines(o1)[0]:
             ctx.fail("a line gives a different output when processed alone than inside the text (no secret feature on)", {"line": cases[ci][11 + li], "features": metas[ci][0]},
                      textgen.outlines(i[ci])[li], textgen.outlines(o1)[0], label="impl")
-    ctx.evaluations = sum(len(c) - 11 for c in cases) + len(singles)
+    n_extra = repeated_lines(ctx, rng, q) + big_text(ctx, rng)
+    ctx.evaluations = sum(len(c) - 11 for c in cases) + len(singles) + n_extra
     ctx.distinct_nontrivial = nt
     ctx.search_stats = {"cases": len(cases), "feature_subsets": len(subsets), "lines": sum(len(c) - 11 for c in cases), "locality_probes": len(singles)}
     ctx.samples = [dict(textgen.sample(cases[5], i[5], 0), features=metas[5][0]), dict(textgen.sample(cases[15], i[15], 1), features=metas[15][0])]
@@ -150,3 +151,55 @@ def run(ctx):
 def re_ws(s):
     import re
     return re.sub(r"\S+", "X", s)
+
+
+def repeated_lines(ctx, rng, q):
+    """the same line text several times within the life of one FileAnonymizer with DIFFERENT terminators (LF, CRLF, none at the end of a text),
+    within one text and across several anonymize_io calls: every output text must have exactly the line structure of its input text"""
+    import vlib
+    n = 0
+    bodies = [" no shutdown", "!", "end", "interface Gi0/1", " ip address 11.22.33.44 255.255.255.0", "hostname r2"]
+    for flags, words in (("2", None), ("2a", None), ("2p", None), ("2", WORDS), ("2pa", WORDS)):
+        for _ in range(2 if q else 12):
+            texts = []
+            for t in range(rng.randrange(2, 4)):
+                ls = [rng.choice(bodies) + rng.choice(["\n", "\n", "\r\n"]) for _ in range(rng.randrange(2, 7))]
+                if rng.random() < 0.6:
+                    ls.append(rng.choice(bodies))          # last line of this text without a terminator
+                texts.append(ls)
+            flat = []
+            for k, t in enumerate(texts):
+                flat += ([] if k == 0 else ["\x08"]) + t
+            c = textgen.pipe(flat, flags=flags, salt="s", words=words)
+            out = vlib.run_impl([c])[0]
+            n += sum(len(t) for t in texts)
+            if out.startswith("RAISED"):
+                ctx.fail("processing raised", c[:11], out, label="raised")
+                continue
+            outs = out.split("\x07")
+            for t, o in zip(texts, outs):
+                ol = o.splitlines(keepends=True)
+                want = [l[len(l.rstrip("\r\n")):] for l in t]
+                got = [l[len(l.rstrip("\r\n")):] for l in ol]
+                if want != got:
+                    ctx.fail("line terminators / line count changed when a line text recurs with another terminator (several anonymize_io calls on one anonymizer)",
+                             {"texts": texts, "features": flags}, o, label="impl-repeat")
+                    break
+    return n
+
+
+def big_text(ctx, rng):
+    """one text larger than 1 MiB (and than common buffer sizes): every line must come out"""
+    import vlib
+    lines = ["interface Vlan%d description uplink to core-rtr %d\n" % (k, k) for k in range(26000)]
+    lines[777] = " ip address 11.22.33.44 255.255.255.0\n"
+    lines[-1] = "end of file marker 11.22.33.45\n"
+    assert sum(len(l) for l in lines) > (1 << 20) + 4096
+    out = vlib.run_impl([textgen.pipe(lines, flags="a", salt="s")])[0]
+    if out.startswith("RAISED"):
+        ctx.fail("processing a text of %d characters raised" % sum(len(l) for l in lines), {"lines": len(lines)}, out, label="raised")
+        return len(lines)
+    ol = textgen.outlines(out)
+    if len(ol) != len(lines) or not ol[-1].startswith("end of file marker ") or ol[5] != lines[5]:
+        ctx.fail("%d lines (%d characters) in, %d lines out" % (len(lines), sum(len(l) for l in lines), len(ol)), {"lines": len(lines), "first": lines[0]}, ol[-1][:200] if ol else "", label="impl-big")
+    return len(lines)
